@@ -61,7 +61,7 @@ fn plan(rng: &mut Rng) -> Vec<Step> {
     let mut api = pick_api(rng, true);
     let (k, r, s) = small_cfg(rng, api_rate(api));
     let mut v = vec![Step::New(api, k, r, s), Step::Round];
-    for _ in 0..rng.range(2, 7) {
+    for _ in 0..rng.range(2, if crate::thorough() { 24 } else { 7 }) {
         match rng.below(6) {
             0 | 1 => v.push(Step::Round),
             2 | 3 => {
